@@ -120,7 +120,7 @@ def oracle_shape(cls, tls, line, rest, waptop):
         if any(ord(c) > 127 for c in line):
             return False
         f = line.strip().split(" ")
-        return len(f) == 3 and all(f) and all("0" <= c <= "9" for c in f[2])
+        return len(f) == 3 and all(f) and f[1].startswith("/") and all("0" <= c <= "9" for c in f[2])
     raise ValueError(cls)
 
 
@@ -226,7 +226,8 @@ def run(ctx):
               (b"GET /hello.txt HTTP/1.1\r\n", b"Accept: text/vnd.wap.wml, text/html\r\nX-Wap-Profile: http://x\r\n\r\n", False),
               (b"GET /hello.txt HTTP/1.0\r\n", b"Accept: text/vnd.wap.wml\r\nX-Up-Devcap-Max-Pdu: 1400\r\n\r\n", False),
               (b"GET /hello.txt HTTP/1.0\r\n", b"Accept:text/vnd.wap.wml\r\nX-Up-Devcap-Max-Pdu: 1400\r\n\r\n", False),
-              (b"h /p 0\r\n", b"", False), (b"h /p 0\r\n", b"", True), (b"gemini://h/\r\n", b"", False),
+              (b"h /p 0\r\n", b"", False), (b"h /p 0\r\n", b"", True), (b"/Symphony No 5\r\n", b"", False), (b"/a b 3\r\n", b"", False),
+              (b"h p 0\r\n", b"", False), (b"/x /y 7\r\n", b"", False), (b"gemini://h/\r\n", b"", False),
               (b"gemini://h/\r\n", b"", True), (b"/x\t+\r\n", b"", True), (b"/x\t$\r\n", b"", False),
               (b"GET / HTTP/1.0\r\n", b"", True), (b"/a\tq\t!\r\n", b"", False), (b"/a\tb\tc\td\r\n", b"", False)]
     # header lines around and beyond 8 KiB (the WML type at the end of a long Accept list; a long header before the ones
